@@ -285,7 +285,18 @@ func execC01(b []byte) vx.Verdict {
 		}
 	}
 	if last != "" {
-		return vx.Violation("converge", "C01/no-convergence", "after %v: %s (live %v edges %v)", time.Since(start).Round(time.Millisecond), last, live, edges)
+		conns := ""
+		for _, u := range live {
+			if n := m.Node(u); n != nil {
+				var cs []string
+				for _, c := range n.N.Status().Connections {
+					cs = append(cs, fmt.Sprintf("%s(%v)", c.NodeID, c.Cost))
+				}
+				sort.Strings(cs)
+				conns += fmt.Sprintf(" %s:%v", u, cs)
+			}
+		}
+		return vx.Violation("converge", "C01/no-convergence", "after %v: %s (live %v edges %v; connections each node reports:%s)", time.Since(start).Round(time.Millisecond), last, live, edges, conns)
 	}
 	changed := !tablesEqual(exp0, exp)
 	tie, multihop := false, false
